@@ -233,7 +233,7 @@ func (w FederatingWrappedCallbacks) callbacks(fns []interface{}) []interface{} {
 // create implements the federating Create activity side effects.
 func (w FederatingWrappedCallbacks) create(c context.Context, a vocab.ActivityStreamsCreate) error {
 	op := a.GetActivityStreamsObject()
-	if op == nil || op.Len() == 0 {
+	if objectMissing(op) {
 		return ErrObjectRequired
 	}
 	// Create anonymous loop function to be able to properly scope the defer
@@ -292,7 +292,7 @@ func (w FederatingWrappedCallbacks) create(c context.Context, a vocab.ActivitySt
 // update implements the federating Update activity side effects.
 func (w FederatingWrappedCallbacks) update(c context.Context, a vocab.ActivityStreamsUpdate) error {
 	op := a.GetActivityStreamsObject()
-	if op == nil || op.Len() == 0 {
+	if objectMissing(op) {
 		return ErrObjectRequired
 	}
 	if err := mustHaveActivityOriginMatchObjects(a); err != nil {
@@ -333,7 +333,7 @@ func (w FederatingWrappedCallbacks) update(c context.Context, a vocab.ActivitySt
 // deleteFn implements the federating Delete activity side effects.
 func (w FederatingWrappedCallbacks) deleteFn(c context.Context, a vocab.ActivityStreamsDelete) error {
 	op := a.GetActivityStreamsObject()
-	if op == nil || op.Len() == 0 {
+	if objectMissing(op) {
 		return ErrObjectRequired
 	}
 	if err := mustHaveActivityOriginMatchObjects(a); err != nil {
@@ -370,7 +370,7 @@ func (w FederatingWrappedCallbacks) deleteFn(c context.Context, a vocab.Activity
 // follow implements the federating Follow activity side effects.
 func (w FederatingWrappedCallbacks) follow(c context.Context, a vocab.ActivityStreamsFollow) error {
 	op := a.GetActivityStreamsObject()
-	if op == nil || op.Len() == 0 {
+	if objectMissing(op) {
 		return ErrObjectRequired
 	}
 	// Check that we own at least one of the 'object' properties, and ensure
@@ -709,11 +709,11 @@ func (w FederatingWrappedCallbacks) reject(c context.Context, a vocab.ActivitySt
 // add implements the federating Add activity side effects.
 func (w FederatingWrappedCallbacks) add(c context.Context, a vocab.ActivityStreamsAdd) error {
 	op := a.GetActivityStreamsObject()
-	if op == nil || op.Len() == 0 {
+	if objectMissing(op) {
 		return ErrObjectRequired
 	}
 	target := a.GetActivityStreamsTarget()
-	if target == nil || target.Len() == 0 {
+	if targetMissing(target) {
 		return ErrTargetRequired
 	}
 	if err := add(c, op, target, w.db); err != nil {
@@ -728,11 +728,11 @@ func (w FederatingWrappedCallbacks) add(c context.Context, a vocab.ActivityStrea
 // remove implements the federating Remove activity side effects.
 func (w FederatingWrappedCallbacks) remove(c context.Context, a vocab.ActivityStreamsRemove) error {
 	op := a.GetActivityStreamsObject()
-	if op == nil || op.Len() == 0 {
+	if objectMissing(op) {
 		return ErrObjectRequired
 	}
 	target := a.GetActivityStreamsTarget()
-	if target == nil || target.Len() == 0 {
+	if targetMissing(target) {
 		return ErrTargetRequired
 	}
 	if err := remove(c, op, target, w.db); err != nil {
@@ -747,7 +747,7 @@ func (w FederatingWrappedCallbacks) remove(c context.Context, a vocab.ActivitySt
 // like implements the federating Like activity side effects.
 func (w FederatingWrappedCallbacks) like(c context.Context, a vocab.ActivityStreamsLike) error {
 	op := a.GetActivityStreamsObject()
-	if op == nil || op.Len() == 0 {
+	if objectMissing(op) {
 		return ErrObjectRequired
 	}
 	id, err := GetId(a)
@@ -914,7 +914,7 @@ func (w FederatingWrappedCallbacks) announce(c context.Context, a vocab.Activity
 // undo implements the federating Undo activity side effects.
 func (w FederatingWrappedCallbacks) undo(c context.Context, a vocab.ActivityStreamsUndo) error {
 	op := a.GetActivityStreamsObject()
-	if op == nil || op.Len() == 0 {
+	if objectMissing(op) {
 		return ErrObjectRequired
 	}
 	actors := a.GetActivityStreamsActor()
@@ -930,7 +930,7 @@ func (w FederatingWrappedCallbacks) undo(c context.Context, a vocab.ActivityStre
 // block implements the federating Block activity side effects.
 func (w FederatingWrappedCallbacks) block(c context.Context, a vocab.ActivityStreamsBlock) error {
 	op := a.GetActivityStreamsObject()
-	if op == nil || op.Len() == 0 {
+	if objectMissing(op) {
 		return ErrObjectRequired
 	}
 	if w.Block != nil {
